@@ -22,7 +22,7 @@ CLAIMED = {
  "C14": dict(text=GEN + "Partial: civil weeks — acceptance, week count, first day, start weekday, coverage, seven consecutive days, week-of-date — for every month/date, every start weekday, one job per weekday of the 1st of the month. stepping a civil or lunar week by n (|n| <= 6 / 8) and the first day of a lunar week by engine B; the index of a civil week in its year counted from the week containing January 1 (engine B, search loop unrolled with the bound proved); week -> seven days, month -> weeks, week count and constructor acceptance for civil and lunar (engine B). Not covered: steps beyond the stated bounds.",
              note="Assumes: day counts relative to the month's 1st (sums of month lengths; discharged by C01) with one concrete representative day count per weekday; small-step SolarDay::next closed form (lemma 14.L); index_of as 32-bit arithmetic (engine B).",
              technique=BMC + " + " + ENGB),
- "C19": dict(text=GEN + "Stem / branch / pillar / star attribute tables are decided over their whole finite domains (symbolic index, Kani) against first-principles encodings written from the classical rules; the eight-character derived signs over all pillar combinations by engine B. Not covered: name-string lookups, Peng Zu texts, 28-mansion land/luck and foetus tables.",
+ "C19": dict(text=GEN + "Stem / branch / pillar / star attribute tables are decided over their whole finite domains (symbolic index, Kani) against first-principles encodings written from the classical rules; the eight-character derived signs over all pillar combinations, the hidden-stem list and the name-stated tables Direction -> Element, Land -> Direction, Zone -> Beast, Twenty -> Sixty by engine B. Not covered: name-string lookups, Peng Zu texts, 28-mansion luck and foetus tables.",
              note="Assumes: index_of as 32-bit arithmetic (engine B); the oracle tables in harness/src/c19.rs; engine-B object-model axioms (A-index, A-pillar, A-name, A-format) each discharged by another obligation or stated as trusted.",
              technique=BMC + " + " + ENGB),
  "C07": dict(text=GEN + "Partial: weekday = (floor(JD+0.5)+1) mod 7 for every Julian date (Kani); day pillar = (day number + 49) mod 60 on the lunar-date route for every month start and day (engine B over the real index arithmetic, names via an axiomatised object model). Not covered: agreement of the three routes to the pillar (they run the solar->lunar walk over real month data).",
